@@ -81,6 +81,31 @@ def rstar(T, rec, q, rec2, q2, live, me, except_id=None):
     return z3.ForAll([j], body)
 
 
+def rely_clauses(T, rec, q, rec2, q2, me, j):
+    """What the loop thread's proofs use of R*: each clause is a consequence of R* at id j (lemmas `rely:*`)."""
+    killed = z3.And(known(T, rec, j), status_of(T, rec, j) == T.S("KILLED"))
+    return [
+        ("never-puts-an-invocation-under-the-runner", z3.Implies(held_me(T, rec2, j, me), held_me(T, rec, j, me))),
+        ("done-is-stable", z3.Implies(done(T, rec, q, j, me), done(T, rec2, q2, j, me))),
+        ("tracked-is-stable", z3.Implies(tracked(T, rec, q, j, me), tracked(T, rec2, q2, j, me))),
+        ("registered-stays-registered", z3.Implies(known(T, rec, j), known(T, rec2, j))),
+        ("a-killed-invocation-stays-killed-or-is-requeued-by-its-own-thread", z3.Implies(killed, z3.Or(
+            z3.And(z3.Select(rec2, j) == z3.Select(rec, j), z3.Select(q2, j) == z3.Select(q, j)),
+            done(T, rec2, q2, j, me)))),
+    ]
+
+
+def rely(T, rec, q, rec2, q2, me, except_id=None):
+    out = []
+    for _n, _f in rely_clauses(T, rec, q, rec2, q2, me, z3.Const("probe", ID.sort())):
+        j = z3.Const(fresh_name("ej"), ID.sort())
+        body = dict(rely_clauses(T, rec, q, rec2, q2, me, j))[_n]
+        if except_id is not None:
+            body = z3.Implies(j != except_id, body)
+        out.append(z3.ForAll([j], body))
+    return z3.And(out)
+
+
 def rely_lemmas(ctx: RunCtx):
     """R* is reflexive and closed under every status request of a task thread that the state machine accepts."""
     T = Types(ctx.src)
@@ -111,11 +136,9 @@ def rely_lemmas(ctx: RunCtx):
             z3.Implies(status_of(T, ra, j) == T.S("KILLED"), OSTR.is_none(owner_of(T, ra, j))),
             rstar_at(T, ra, qa, rb, qb, live, me, j), accepted, new_c],
            rstar_at(T, ra, qa, rc, qc, live, me, j))
-    # the statement of the property is stable: nothing a task thread may still do changes a done invocation
-    ob("done-is-stable-under-the-environment", [z3.Length(me) > 0, done(T, ra, qa, j, me), rstar_at(T, ra, qa, rb, qb, live, me, j)], done(T, rb, qb, j, me))
-    ob("tracked-is-stable-under-the-environment", [z3.Length(me) > 0, z3.Select(qa, j) >= 0, tracked(T, ra, qa, j, me), rstar_at(T, ra, qa, rb, qb, live, me, j)], tracked(T, rb, qb, j, me))
-    ob("the-environment-never-puts-an-invocation-under-the-runner", [z3.Length(me) > 0, z3.Not(held_me(T, ra, j, me)), rstar_at(T, ra, qa, rb, qb, live, me, j)],
-       z3.Not(held_me(T, rb, j, me)))
+    # the clauses of the rely relation that the proofs use are consequences of R*
+    for name, clause in rely_clauses(T, ra, qa, rb, qb, me, j):
+        ob(f"rely:{name}", [z3.Length(me) > 0, z3.Select(qa, j) >= 0, rstar_at(T, ra, qa, rb, qb, live, me, j)], clause)
     return out
 
 
@@ -210,7 +233,8 @@ def contracts(T: Types, reg: Registry, G: dict):
         r2, q2 = mk_fresh(r1.ty, "env.rec"), mk_fresh(q1.ty, "env.queue")
         m = me_of(T, eng.heap_read(st, root, "_runner_context").term)
         lv = st.ghost["g:live"].term
-        st.assume(rstar(T, r1.term, q1.term, r2.term, q2.term, lv, m))
+        st.assume(rely(T, r1.term, q1.term, r2.term, q2.term, m))
+        st.assume(z3.And(owners_ok(T, r2.term), bag_nonneg(q2.term)))
         eng.heap_write(st, orch, "rec", r2)
         eng.heap_write(st, broker, "queue", q2)
         # children registered by task bodies: stored invocations and the wait graph grow; the world invariants that every glue
@@ -277,7 +301,9 @@ def contracts(T: Types, reg: Registry, G: dict):
     RR_FRAME = [REC, glue.HIST, glue.WAITED, glue.EDGES, glue.PURGE, QUEUE]
     SINGLE = z3.Function("the_single_id", SID.sort(), ID.sort())
     _ax = z3.Const("ax_i", ID.sort())
-    reg.axioms = getattr(reg, "axioms", []) + [z3.ForAll([_ax], SINGLE(z3.Store(SID.empty(), _ax, True)) == _ax)]   # definition of "the element of a one-id set"
+    reg.axioms = getattr(reg, "axioms", []) + [
+        z3.ForAll([_ax], T.Invocation.get(T.inv_of(_ax), "invocation_id") == _ax),     # the stored invocation of an id carries that id
+        z3.ForAll([_ax], SINGLE(z3.Store(SID.empty(), _ax, True)) == _ax)]   # definition of "the element of a one-id set"
 
     def single(c):
         S = c.arg("invocations_to_reroute")
@@ -325,10 +351,11 @@ def contracts(T: Types, reg: Registry, G: dict):
 
     # ---- _kill_and_reroute
     kid = lambda c: c.arg("invocation_id")
-    others_env = lambda c: rstar(T, rec0(c), q0(c), rec(c), q(c), live(c), me(c), except_id=kid(c))
+    others_env = lambda c: rely(T, rec0(c), q0(c), rec(c), q(c), me(c), except_id=kid(c))
     def no_new_claims(c):
         i = z3.Const(fresh_name("nc"), ID.sort())
         return z3.ForAll([i], z3.Implies(held_me(T, rec(c), i, me(c)), held_me(T, rec0(c), i, me(c))))
+    flag_only_down = ("the-running-flag-only-ever-goes-down", lambda c: z3.Implies(c.f("running"), c.old("running")))
     kill = Contract(
         key=f"{BR}:BaseRunner._kill_and_reroute", shape="ThreadRunner", params={"invocation_id": ID, "runner_ctx": Opt(T.RunnerCtx)},
         defaults={"runner_ctx": lambda eng, st: NONE},
@@ -339,7 +366,7 @@ def contracts(T: Types, reg: Registry, G: dict):
             ("C11:the-invocation-is-final-or-back-in-the-queue-available-and-unowned", lambda c: done(T, rec(c), q(c), kid(c), me(c))),
             ("every-other-invocation-changed-only-by-its-own-task-thread", others_env),
             ("table-untouched", lambda c: c.f("threads") == c.old("threads")),
-            ("claims-nothing", no_new_claims),
+            ("claims-nothing", no_new_claims), flag_only_down,
         ] + wf_post)], properties=[PID])
     kill.ghost_init = {"g:live": SID}
     kill.step_hooks = [env_step]
@@ -358,21 +385,22 @@ def contracts(T: Types, reg: Registry, G: dict):
         key=f"{TR}:ThreadRunner._on_stop", shape="ThreadRunner", params={},
         requires=wellformed + [("every-entry-of-the-table-is-an-invocation-this-runner-claimed", all_tracked)],
         frame=WORLD_FRAME + ["running"],
-        loops={0: LoopSpec(modifies=["rec", "queue", "hist", "waited", "edges_to", "purge_set", "running"], inv=[
+        loops={0: LoopSpec(modifies=["rec", "queue", "hist", "waited", "edges_to", "purge_set", "running", "stored"], inv=[
             ("entries-handled-so-far-are-final-or-requeued", seen_done),
             ("entries-not-yet-handled-are-still-the-runner's", unseen_tracked),
-            ("claims-nothing", no_new_claims),
+            ("claims-nothing", no_new_claims), flag_only_down,
         ] + wf_post)},
         cases=[Case("stopped", ensures=[
             ("C11:every-invocation-of-the-table-is-final-or-back-in-the-queue-available-and-unowned", all_done),
             ("table-untouched", lambda c: c.f("threads") == c.old("threads")),
-            ("claims-nothing", no_new_claims),
+            ("claims-nothing", no_new_claims), flag_only_down,
         ] + wf_post)], properties=[PID])
     on_stop.ghost_init = {"g:live": SID}
     on_stop.step_hooks = [env_step]
     reg.add(on_stop)
     out.append(on_stop)
-    more_contracts(T, reg, G, out, locals())
+    L_ = dict(locals())
+    more_contracts(T, reg, G, out, L_)
     return out
 
 
@@ -412,6 +440,22 @@ def more_contracts(T, reg, G, out, L):
                   ("C11:every-invocation-held-by-the-runner-is-in-its-table", inv_a),
                   ("task-threads-that-may-still-act-are-in-the-table", live_in_table),
                   ("world-invariants(C03)", WI)]
+    def waiting_marks(c, seen=None, new=None):
+        k = z3.Const(fresh_name("wm"), ID.sort())
+        new = table(c) if new is None else new
+        dropped = z3.And(in_table(table0(c), k), z3.Not(in_table(new, k)))
+        if seen is not None:
+            dropped = z3.And(dropped, z3.Select(seen, k))
+        return z3.ForAll([k], z3.Select(c.f("waiting_invocation_ids"), k) == z3.And(z3.Select(c.old("waiting_invocation_ids"), k), z3.Not(dropped)))
+
+    def live_not_waiting(c):
+        k = z3.Const(fresh_name("ln"), ID.sort())
+        return z3.Lambda([k], z3.And(in_table(table(c), k), z3.Not(z3.Select(c.f("waiting_invocation_ids"), k))))
+
+    def slots(c):
+        a, b, m = c.f("conf.min_parallel_slots"), c.f("conf.min_threads"), c.f("max_threads")
+        mx = z3.If(a >= b, a, b)
+        return z3.If(mx >= m, mx, m)
     reclaim = Contract(
         key=f"{TR}:ThreadRunner._reclaim_available_slots", shape="ThreadRunner", params={}, result=INT,
         requires=wellformed + state_req,
@@ -422,17 +466,29 @@ def more_contracts(T, reg, G, out, L):
             ("C11:a-dropped-entry's-invocation-is-not-left-PENDING-or-RUNNING-under-this-runner", lambda c: dropped_not_held(c, c.v("alive_threads"), c.x("seen"))),
         ] + [(n, f) for n, f in state_post if not n.startswith("C11")] + [
             ("claims-nothing", no_new_claims),
+            ("C09:waiting-marks-of-entries-dropped-so-far-are-removed,the-others-kept", lambda c: waiting_marks(c, c.x("seen"), c.v("alive_threads"))),
             ("held-invocations-are-in-the-old-table", lambda c: z3.ForAll([z3.Const("ho", ID.sort())], z3.Implies(
                 held_me(T, rec(c), z3.Const("ho", ID.sort()), me(c)), in_table(table(c), z3.Const("ho", ID.sort()))))),
         ])},
         cases=[Case("reclaimed", ensures=[
             ("the-table-only-loses-entries", lambda c: kept_subset(c, table(c))),
+            ("C09:a-waiting-mark-is-removed-only-together-with-the-waiter's-own-finished-thread", waiting_marks),
+            ("C09:free-slots=capacity-minus-the-live-threads-that-are-not-waiting", lambda c: c.result == slots(c) - ops.card(live_not_waiting(c), ID.sort())),
         ] + state_post + [("claims-nothing", no_new_claims)])], properties=[PID])
     reclaim.local_types = {"alive_threads": TABLE}
     reclaim.ghost_init = {"g:live": SID}
     reclaim.step_hooks = [env_step]
     reg.add(reclaim)
     out.append(reclaim)
+
+    wait_mark = Contract(
+        key=f"{TR}:ThreadRunner._waiting_for_results", shape="ThreadRunner",
+        params={"running_invocation_id": ID, "result_invocation_ids": Atom("IdList"), "runner_args": Atom("RunnerArgs")},
+        defaults={"runner_args": lambda eng, st: NONE}, frame=["waiting_invocation_ids"],
+        cases=[Case("marked", ensures=[("C09:the-waiter-is-marked-and-no-other-mark-changes", lambda c: c.f("waiting_invocation_ids") == z3.Store(
+            c.old("waiting_invocation_ids"), c.arg("running_invocation_id"), True))])], properties=["C09"])
+    reg.add(wait_mark)
+    out.append(wait_mark)
 
     # ---- runner_loop_iteration: every claimed invocation gets a thread and a table entry, or is handed back
     inv_id = lambda v: T.Invocation.get(v, "invocation_id")
@@ -454,13 +510,17 @@ def more_contracts(T, reg, G, out, L):
             ("polled-invocations-are-the-stored-ones-of-their-ids", lambda c: z3.ForAll([z3.Const("pv", T.Invocation.sort())], z3.Implies(
                 z3.Select(c.x("full"), z3.Const("pv", T.Invocation.sort())),
                 z3.Const("pv", T.Invocation.sort()) == T.inv_of(inv_id(z3.Const("pv", T.Invocation.sort())))))),
+            ("table-key-is-the-id-of-the-entry's-invocation-and-of-its-thread's-target", lambda c: L["key_is_id"](table(c))),
+            ("polled-invocations-are-the-runner's(claimed-by-the-poll,then-only-their-own-thread-acts)", lambda c: z3.ForAll(
+                [z3.Const("pt", T.Invocation.sort())], z3.Implies(z3.Select(c.x("full"), z3.Const("pt", T.Invocation.sort())),
+                                                                 tracked(T, rec(c), q(c), inv_id(z3.Const("pt", T.Invocation.sort())), me(c))))),
             ("polled-and-not-yet-started-invocations-are-registered", lambda c: z3.ForAll([z3.Const("pk", T.Invocation.sort())], z3.Implies(
                 z3.Select(c.x("full"), z3.Const("pk", T.Invocation.sort())), known(T, rec(c), inv_id(z3.Const("pk", T.Invocation.sort())))))),
         ])},
         cases=[
             Case("iteration", ensures=state_post + [("the-poll-is-drained(every-claimed-invocation-is-taken-over)", drained)]),
             # thread start failed and, meanwhile, an older thread of the same invocation moved it: the hand-back is refused
-            Case("hand-back-refused", raises="InvocationStatusError", ensures=state_post),
+            Case("hand-back-refused", raises="InvocationStatusError", ensures=[(n, f) for n, f in state_post if not n.startswith("C11")]),
         ], properties=[PID])
     def with_unfolding(key):
         def h(eng, st, recv, args, kwargs):
@@ -479,6 +539,228 @@ def more_contracts(T, reg, G, out, L):
     reg.add(iteration)
     out.append(iteration)
 
+    # ---- BaseRunner.on_stop / stop_runner_loop / run
+    key_is_id = L["key_is_id"]
+    stopped = ("the-running-flag-is-down", lambda c: z3.Not(c.f("running")))
+    base_on_stop = Contract(
+        key=f"{BR}:BaseRunner.on_stop", shape="ThreadRunner", params={},
+        requires=wellformed + [("every-entry-of-the-table-is-an-invocation-this-runner-claimed", all_tracked)],
+        frame=WORLD_FRAME + ["running"],
+        cases=[Case("stopped", ensures=[
+            ("C11:every-invocation-of-the-table-is-final-or-back-in-the-queue-in-an-available-status", all_done), stopped,
+            ("table-untouched", lambda c: c.f("threads") == c.old("threads")), ("claims-nothing", no_new_claims)] + wf_post)], properties=[PID])
+    base_on_stop.ghost_init = {"g:live": SID}
+    base_on_stop.step_hooks = [env_step]
+    reg.add(base_on_stop)
+    out.append(base_on_stop)
+
+    reg.add(Contract(key=f"{TR}:ThreadRunner._log_shutdown", shape="ThreadRunner", params={"signum": Opt(INT)}, frame=[], assumed=True, check_invariants=False,
+                     effect_events=False, cases=[Case("logged"), Case("diagnostics-failed", raises="Exception")],
+                     note="diagnostics only (reads the table, writes the log); may fail"))
+    reg.add(Contract(key=f"{BR}:classify_signal", params={"signum": Opt(INT)}, result=STR, assumed=True, effect_events=False, cases=[Case("name")]))
+    reg.add(Contract(key="pynenc.runner.shutdown_diagnostics:classify_signal", params={"signum": Opt(INT)}, result=STR, assumed=True, effect_events=False,
+                     cases=[Case("name")]))
+    stop_req = Contract(
+        key=f"{BR}:BaseRunner.stop_runner_loop", shape="ThreadRunner", params={"signum": Opt(INT), "frame": Opt(Atom("Frame"))},
+        defaults={"signum": lambda eng, st: NONE, "frame": lambda eng, st: NONE}, frame=["running", "_shutdown_signum"],
+        cases=[Case("requested", ensures=[("C11:a-stop-request-always-takes-the-running-flag-down(also-when-diagnostics-fail)", lambda c: z3.Not(c.f("running")))])],
+        properties=[PID])
+    reg.add(stop_req)
+    out.append(stop_req)
+
+    svc_post = [(n, f) for n, f in state_post] + [("table-untouched", lambda c: c.f("threads") == c.old("threads"))]
+    reg.add(Contract(key=f"{BR}:BaseRunner._check_atomic_services", shape="ThreadRunner", params={}, frame=WORLD_FRAME + ["_last_atomic_service_check_time"],
+                     assumed=True, check_invariants=False, cases=[Case("checked", ensures=svc_post), Case("unexpected-error", raises="Exception", ensures=svc_post)],
+                     note="trigger processing and recovery (C04, C12, C13) do not touch invocations held by this live runner and keep the world invariants"))
+    reg.add(Contract(key=f"{BR}:BaseRunner.on_start", shape="ThreadRunner", params={}, frame=["running", "threads", "waiting_invocation_ids", "max_threads"],
+                     assumed=True, check_invariants=False, effect_events=False,
+                     cases=[Case("started", ensures=[("running", lambda c: c.f("running")), ("empty-table", lambda c: c.f("threads") == TABLE.empty()),
+                                                     ("nobody-waits", lambda c: c.f("waiting_invocation_ids") == SID.empty())])],
+                     note="installs signal handlers, imports trigger modules, sets running and calls _on_start (verified separately)"))
+
+    def nothing_held(c):
+        i = z3.Const(fresh_name("nh"), ID.sort())
+        return z3.ForAll([i], z3.Not(held_me(T, rec(c), i, me(c))))
+    loop_inv = [(n, f) for n, f in state_post] + [("table-key-is-the-id-of-the-entry's-invocation-and-of-its-thread's-target", lambda c: key_is_id(table(c)))] + wf_post
+    run = Contract(
+        key=f"{BR}:BaseRunner.run", shape="ThreadRunner", params={},
+        requires=wellformed + [("world-invariants(C03)", WI), ("a-runner-that-has-not-started-holds-nothing", nothing_held),
+                               ("no-task-thread-yet", lambda c: live(c) == SID.empty())],
+        frame=WORLD_FRAME + ["running", "threads", "waiting_invocation_ids", "max_threads", "_last_atomic_service_check_time"],
+        loops={0: LoopSpec(modifies=["rec", "queue", "hist", "waited", "edges_to", "purge_set", "running", "stored", "threads", "waiting_invocation_ids",
+                                     "_last_atomic_service_check_time"], inv=loop_inv)},
+        cases=[
+            Case("stopped", ensures=[
+                ("C11:nothing-remains-PENDING-or-RUNNING-under-the-stopped-runner", nothing_held),
+                ("C11:every-invocation-the-runner-still-tracked-is-final-or-back-in-the-queue-in-an-available-status", all_done), stopped]),
+            Case("loop-failed", raises="Exception", ensures=[
+                ("C11:every-invocation-the-runner-still-tracked-is-final-or-back-in-the-queue-in-an-available-status", all_done), stopped]),
+        ], properties=[PID])
+    run.ghost_init = {"g:live": SID}
+    run.step_hooks = [env_step]
+    reg.add(run)
+    out.append(run)
+
+    def h_cpu(eng, st, recv, args, kwargs):
+        v = mk_fresh(INT, "cpu_count")
+        st.assume(v.term >= 1)
+        return [(OK, st, v)]
+    reg.add(Contract(key="multiprocessing:cpu_count", handler=h_cpu, assumed=True, note="number of CPUs: a positive integer"))
+    on_start = Contract(
+        key=f"{TR}:ThreadRunner._on_start", shape="ThreadRunner", params={}, frame=["threads", "waiting_invocation_ids", "max_threads"],
+        requires=[("configured-thread-limit-is-not-negative", lambda c: c.f("conf.max_threads") >= 0)],
+        cases=[Case("reset", ensures=[("empty-table", lambda c: c.f("threads") == TABLE.empty()),
+                                      ("nobody-waits", lambda c: c.f("waiting_invocation_ids") == SID.empty()),
+                                      ("C09:capacity-at-least-one", lambda c: c.f("max_threads") >= 1)])], properties=[PID, "C09"])
+    reg.add(on_start)
+    out.append(on_start)
+
+
+PHASES = ["queued", "running", "finished", "retried", "fault", "pause", "waiting-child"]
+
+
+def stop_scenario(backend: str, phases, reclaim: bool, timeout=4.0):
+    """One run of the real ThreadRunner, driven step by step: bring one invocation per entry of `phases` into that phase, optionally let the
+    loop reclaim slots once more (as its next iteration would), then stop.  Returns (hung, {name: (status, owner, queued)})."""
+    import threading
+    import time as _t
+    from pynenc.runner.thread_runner import ThreadRunner
+    from . import verif_tasks as vt
+    from .realapp import real_app
+    with real_app(backend) as app:
+        task = app.task(max_retries=3, retry_for=(vt.Retriable,))(vt.gated)
+        vt.CHILD_TASK[0] = app.task(vt.child_of)
+        runner = ThreadRunner(app)
+        app.runner = runner
+        app.conf.runner_loop_sleep_time_sec = 0.0
+        runner.conf.runner_loop_sleep_time_sec = 0.0
+        runner.conf.invocation_wait_results_sleep_time_sec = 0.01
+        import warnings
+        with warnings.catch_warnings():
+            warnings.simplefilter("ignore")
+            runner.on_start()
+        names = [f"{ph}#{k}" for k, ph in enumerate(phases)]
+        for n in names:
+            vt.GATES[n], vt.ENTERED[n] = threading.Event(), threading.Event()
+            vt.MODES[n] = {"retried": "retry", "pause": "pause", "waiting-child": "child"}.get(n.split("#")[0], "ok")
+        invs = {}
+        started = [n for n in names if not n.startswith("queued")]
+        for n in started:
+            invs[n] = task(n)
+        fault_ids = {invs[n].invocation_id for n in started if n.startswith("fault")}
+        real_set_result = app.orchestrator.set_invocation_result
+
+        def faulty(invocation, result, runner_ctx):
+            if invocation.invocation_id in fault_ids:
+                raise OSError("injected storage fault while storing the result")
+            return real_set_result(invocation, result, runner_ctx)
+        real_set_exc = app.orchestrator.set_invocation_exception
+
+        def faulty_exc(invocation, exc, runner_ctx):
+            if invocation.invocation_id in fault_ids:
+                raise OSError("injected storage fault while storing the exception")
+            return real_set_exc(invocation, exc, runner_ctx)
+        app.orchestrator.set_invocation_result = faulty
+        app.orchestrator.set_invocation_exception = faulty_exc
+        old_hook = threading.excepthook
+        threading.excepthook = lambda a: None                    # injected faults end task threads: no traceback noise
+        try:
+            runner.runner_loop_iteration()                      # polls and starts one thread per routed invocation
+            for n in started:
+                vt.ENTERED[n].wait(5)
+            for n in names:
+                if n.startswith("queued"):
+                    invs[n] = task(n)                            # routed after the poll: never claimed
+            deadline = _t.time() + 5
+            for n in started:
+                ph = n.split("#")[0]
+                if ph in ("finished", "retried", "fault", "pause", "waiting-child"):
+                    vt.GATES[n].set()
+                want = {"finished": "SUCCESS", "retried": "RETRY"}.get(ph)
+                while want and _t.time() < deadline and app.orchestrator.get_invocation_status_record(invs[n].invocation_id).status.name != want:
+                    _t.sleep(0.005)
+                if ph in ("fault", "pause", "finished", "retried"):
+                    th = runner.threads.get(invs[n].invocation_id)
+                    if th is not None:
+                        th.thread.join(5)
+                if ph == "waiting-child":
+                    while _t.time() < deadline and invs[n].invocation_id not in runner.waiting_invocation_ids:
+                        _t.sleep(0.005)
+            if reclaim:
+                runner._reclaim_available_slots()
+            runner.stop_runner_loop()
+            stopper = threading.Thread(target=runner.on_stop, daemon=True)
+            stopper.start()
+            _t.sleep(0.05)
+            for n in names:
+                vt.GATES[n].set()                                # killed bodies return (Python threads cannot be interrupted)
+            stopper.join(timeout)
+            hung = stopper.is_alive()
+            if hung:                                             # run the child by hand so that the blocked parent returns and the scenario ends
+                from pynenc.invocation.status import InvocationStatus
+                for cid in list(app.orchestrator.get_existing_invocations(vt.CHILD_TASK[0])):
+                    if not app.orchestrator.get_invocation_status_record(cid).status.is_final():
+                        app.orchestrator.set_invocation_status(cid, InvocationStatus.PENDING, runner.runner_context)
+                        app.state_backend.get_invocation(cid).run(runner.runner_context)
+                stopper.join(5)
+            queued = []
+            while (i := app.broker.retrieve_invocation()) is not None:
+                queued.append(i)
+            obs = {}
+            for n in names:
+                r = app.orchestrator.get_invocation_status_record(invs[n].invocation_id)
+                obs[n] = (r.status.name, r.runner_id, invs[n].invocation_id in queued)
+            return hung, obs, runner.runner_id
+        finally:
+            for n in names:
+                vt.GATES[n].set()
+            app.orchestrator.set_invocation_result = real_set_result
+            app.orchestrator.set_invocation_exception = real_set_exc
+            threading.excepthook = old_hook
+
+
+def stop_in_every_phase(ctx: RunCtx) -> BoundedResult:
+    """Bounded stand-in on the real ThreadRunner (in-memory and SQLite stacks)."""
+    import itertools
+    thorough = ctx.tier == "thorough"
+    res = BoundedResult("stop_in_every_phase", "real ThreadRunner driven step by step; one invocation per phase in {queued, running, finished, retried, "
+                        "dead after a storage fault, dead after WorkflowPauseError, waiting on a queued child}, all single phases and " +
+                        ("all pairs" if thorough else "a fixed selection of pairs") + ", with and without one more slot reclaim before the stop; "
+                        "after on_stop every invocation must be final, or available + unowned + queued")
+    combos = [(p,) for p in PHASES]
+    pairs = list(itertools.combinations_with_replacement([p for p in PHASES if p != "waiting-child"], 2))
+    combos += pairs if thorough else [("running", "queued"), ("running", "finished"), ("retried", "running"), ("running", "running"), ("fault", "running")]
+    backends = ("mem", "sqlite") if thorough else ("mem",)
+    n = 0
+    final = {"SUCCESS", "FAILED", "CONCURRENCY_CONTROLLED_FINAL"}
+    avail = {"REGISTERED", "REROUTED", "RETRY"}
+    for backend in backends:
+        for phases in combos:
+            for reclaim in (False, True):
+                n += 1
+                try:
+                    hung, obs, rid = stop_scenario(backend, phases, reclaim)
+                except Exception as e:      # a scenario that cannot be driven is a checker problem, not a verdict
+                    res.failures.append({"what": f"{backend} {phases} reclaim={reclaim}: scenario error {type(e).__name__}: {e}", "finding_key": "scenario-error"})
+                    continue
+                if hung:
+                    key = "hang:waiting-child" if "waiting-child" in phases else "hang:" + "+".join(phases)
+                    res.failures.append({"what": f"{backend} phases={phases} reclaim={reclaim}: on_stop() did not return within 4 s (join of a thread that waits on a child nobody runs)",
+                                         "finding_key": key, "input": {"backend": backend, "phases": list(phases), "reclaim": reclaim}})
+                for name, (status, owner, queued) in obs.items():
+                    ok = status in final or (status in avail and queued and (owner is None or status == "REGISTERED"))
+                    if not ok:
+                        ph = name.split("#")[0]
+                        key = f"left-held:dead-thread-dropped-by-reclaim:{ph}" if (ph in ("fault", "pause") and reclaim) else \
+                            ("after-hang:" + ph if hung else f"left:{ph}:reclaim={reclaim}")
+                        res.failures.append({"what": f"{backend} phases={phases} reclaim={reclaim}: {name} is {status} owner={'the stopped runner' if owner == rid else owner} "
+                                                     f"queued={queued} after the stop", "finding_key": key,
+                                             "input": {"backend": backend, "phases": list(phases), "reclaim": reclaim}})
+    res.cases = n
+    res.distinct = n
+    res.samples = [{"phases": ["running", "queued"], "reclaim": False}]
+    return res
+
 
 def build(ctx: RunCtx) -> Prop:
     T, reg, G = setup(ctx)
@@ -487,7 +769,7 @@ def build(ctx: RunCtx) -> Prop:
         pid=PID, title="stopping the thread runner: every invocation of its table ends final or REROUTED/available, unowned and queued, under "
                        "arbitrary interleaving with the task threads (rely/guarantee over the lifecycle spec)",
         level="other", technique="contract-based deductive verification (AST->z3 VCs) of the loop thread with the task threads as a rely relation proved closed under the lifecycle spec",
-        registry=reg, verify=verify, lemmas=[rely_lemmas], bounded=[],
+        registry=reg, verify=verify, lemmas=[rely_lemmas], bounded=[stop_in_every_phase],
         assumptions=GLUE_ASSUMPTIONS + [
             "a task thread requests status changes for its own invocation only (DistributedInvocation.run) and otherwise registers new invocations",
             "set_invocation_retry / reroute_invocations of a task thread are atomic for the loop thread (status and queue change together)",
